@@ -510,6 +510,45 @@ def daFinish (dbOk : Bool) (ch : Ch) (i : DaIn) : Outcome :=
 
 def daBad (dbOk : Bool) (ch : Ch) (e : ErrT) : Outcome := storeError dbOk ch true e .none
 
+/-- the `apple` arm of the format switch -/
+def daApple (h : Hash) (dbOk : Bool) (ch : Ch) (i : DaIn) (f : AppleFacts) : M Outcome :=
+  match doApple f with
+  | .ise => .val (noWrite ch .none)
+  | .nilErr => .crash
+  | .bad e => .val (daBad dbOk ch e)
+  | .data d =>
+    if d.nonce.length ≠ 0 ∧ d.nonce ≠ h.raw ch.token then .val (daBad dbOk ch .badAttestationStatement)
+    else if d.udid ≠ ch.value ∧ d.serial ≠ ch.value then .val (daBad dbOk ch .badAttestationStatement)
+    else .val (daFinish dbOk ch i)
+
+/-- the `step` arm -/
+def daStep (dbOk : Bool) (ch : Ch) (i : DaIn) (f : StepFacts) : M Outcome :=
+  match doStep ch f with
+  | .ise => .val (noWrite ch .none)
+  | .nilErr => .crash
+  | .bad e => .val (daBad dbOk ch e)
+  | .data serial =>
+    if serial ≠ ch.value then .val (daBad dbOk ch .badAttestationStatement)
+    else .val (daFinish dbOk ch i)
+
+/-- the `tpm` arm -/
+def daTpm (h : Hash) (dbOk : Bool) (ch : Ch) (i : DaIn) (f : TpmFacts) : M Outcome :=
+  match doTpm h ch f with
+  | .ise => .val (noWrite ch .none)
+  | .nilErr => .crash
+  | .bad e => .val (daBad dbOk ch e)
+  | .data pids =>
+    if pids.length > 0 ∧ !pids.contains ch.value then .val (daBad dbOk ch .badAttestationStatement)
+    else .val (daFinish dbOk ch i)
+
+/-- `switch format { … }` -/
+def daCore (h : Hash) (dbOk : Bool) (ch : Ch) (i : DaIn) : M Outcome :=
+  match i.format, i.facts with
+  | .apple, .apple f => daApple h dbOk ch i f
+  | .step, .step f => daStep dbOk ch i f
+  | .tpm, .tpm f => daTpm h dbOk ch i f
+  | _, _ => .val (daBad dbOk ch .badAttestationStatement)
+
 def deviceAttest01Validate (h : Hash) (dbOk : Bool) (ch : Ch) (i : DaIn) : M Outcome :=
   if !i.authzOk then .val (noWrite ch .none)
   else if !i.jsonOk then .val (noWrite ch .none)
@@ -519,33 +558,7 @@ def deviceAttest01Validate (h : Hash) (dbOk : Bool) (ch : Ch) (i : DaIn) : M Out
   else if !i.cborWellformed then .val (daBad dbOk ch .badAttestationStatement)
   else if !i.cborOk then .val (noWrite ch .none)
   else if !i.enabled then .val (daBad dbOk ch .badAttestationStatement)
-  else match i.format, i.facts with
-    | .apple, .apple f =>
-      match doApple f with
-      | .ise => .val (noWrite ch .none)
-      | .nilErr => .crash
-      | .bad e => .val (daBad dbOk ch e)
-      | .data d =>
-        if d.nonce.length ≠ 0 ∧ d.nonce ≠ h.raw ch.token then .val (daBad dbOk ch .badAttestationStatement)
-        else if d.udid ≠ ch.value ∧ d.serial ≠ ch.value then .val (daBad dbOk ch .badAttestationStatement)
-        else .val (daFinish dbOk ch i)
-    | .step, .step f =>
-      match doStep ch f with
-      | .ise => .val (noWrite ch .none)
-      | .nilErr => .crash
-      | .bad e => .val (daBad dbOk ch e)
-      | .data serial =>
-        if serial ≠ ch.value then .val (daBad dbOk ch .badAttestationStatement)
-        else .val (daFinish dbOk ch i)
-    | .tpm, .tpm f =>
-      match doTpm h ch f with
-      | .ise => .val (noWrite ch .none)
-      | .nilErr => .crash
-      | .bad e => .val (daBad dbOk ch e)
-      | .data pids =>
-        if pids.length > 0 ∧ !pids.contains ch.value then .val (daBad dbOk ch .badAttestationStatement)
-        else .val (daFinish dbOk ch i)
-    | _, _ => .val (daBad dbOk ch .badAttestationStatement)
+  else daCore h dbOk ch i
 
 /-! ### Challenge.Validate -/
 
